@@ -38,6 +38,11 @@ def gen(rng):
     home = L['home']
     locs = [t for t in TG.trash_locations(L) if t[2]]
     n = rng.choice([1, 1, 2, 3, 4])
+    # (5 %: one entry of which only the .trashinfo is there - a restore that was stopped after its move, a half-done purge - and
+    # whose destination is occupied: without --overwrite that is a reason to refuse it like any other entry)
+    nopayload = rng.random() < 0.05
+    if nopayload:
+        n = 1
     ngen2 = 0
     late = [] if rng.random() < 0.15 else None
     xdev = [0]
@@ -59,12 +64,16 @@ def gen(rng):
             base = top            # directly below the top directory: the relative Path begins with the blank
         loc = base + '/' + nm
         pv = TG.pct(loc if top is None else loc[len(top) + 1:])
-        G.add_trashed(steps, tdir, nm, pv, TG.iso(TG.rand_date(rng)), rng.choice(['file', 'dir', 'link']), tag=str(i))
-        if rng.random() < 0.2:
+        # (7 %: only the .trashinfo is there - a restore that was stopped after its move, a half-done purge; such an entry is
+        # listed like any other, and an occupied destination is a reason to refuse it like any other)
+        G.add_trashed(steps, tdir, nm, pv, TG.iso(TG.rand_date(rng)), rng.choice(['file', 'dir', 'link']) if not nopayload else 'none', tag=str(i))
+        if rng.random() < 0.2 and not nopayload:
             # an older generation trashed from the same location
             G.add_trashed(steps, tdir, nm + '_1', pv, TG.iso(TG.rand_date(rng)), rng.choice(['file', 'dir', 'link']), tag='gen2-%d' % i)
             ngen2 += 1
         dk = rng.choice(DEST)
+        if nopayload:
+            dk = rng.choice([x for x in DEST if x != 'absent'])
         if late is not None:
             # the occupant appears while trash-restore waits for the reply (after the listing was printed)
             occ_steps = late
@@ -93,7 +102,7 @@ def gen(rng):
         # 0300 / 1733): what occupies a destination there still occupies it
         faults.append({'kind': 'cond', 'what': 'dir_not_readable', 'dir': posixpath.dirname(loc)})
     argv = ['trash-restore']
-    if rng.random() < 0.45:
+    if rng.random() < 0.45 and not nopayload:
         argv.append('--overwrite')
     argv.append('/')
     if rng.random() < 0.5:
